@@ -150,7 +150,7 @@ func VH_C02_FetchMessageSet(version, magic, nm int) {
 // H2 (level S): the background fetcher (*reader).run across a connection loss. The first leader connection
 // delivers a fetch response that is cut inside the value of record number `cutAt` (after cutAt complete records);
 // the reader must reconnect and resume exactly after the last delivered record: every record once, in order.
-func VH_C02_ReaderReconnect(cutAt int) {
+func VH_C02_ReaderReconnect(cutAt, mode int) {
 	vhConcreteClock(true)
 	const total = 4
 	recs := make([][]byte, total)
@@ -184,8 +184,14 @@ func VH_C02_ReaderReconnect(cutAt int) {
 		}
 		return append(s, f...)
 	}
+	first := leader(set1, keep)
+	if mode == 1 {
+		// the connection dies between two fetches: the first response is complete and holds cutAt whole messages
+		// (the partition has more), the next fetch request is answered by nothing at all
+		first = leader(set1[:cutAt*msgLen], -1)
+	}
 	conns := []*vhFakeConn{
-		{data: meta(1)}, {data: leader(set1, keep)},
+		{data: meta(1)}, {data: first},
 		{data: meta(1)}, {data: leader(set2, -1)},
 	}
 	ctx, cancel := context.WithCancel(context.Background())
@@ -290,6 +296,11 @@ func VH_C02_FetchCompressed(version, kind, nrec int) {
 		}
 		wire = vhEncBatchV2Raw(first, 1, int32(nrec-1), ts, ts, int32(nrec), payload)
 	default:
+		// kind 3: like 1 with null keys, kind 4: like 1 with a tombstone (null value) on every other message
+		nullKeys, tombstones := kind == 3, kind == 4
+		if kind >= 3 {
+			kind = 1
+		}
 		magic := int8(1)
 		if kind == 2 {
 			magic = 0
@@ -301,6 +312,12 @@ func VH_C02_FetchCompressed(version, kind, nrec int) {
 				rel += 1 + int64(vhChoose("gap", 2)) // compaction may leave a gap inside the set
 			}
 			k, v := vhBytes("key", 1), vhBytes("value", 2)
+			if nullKeys {
+				k = nil
+			}
+			if tombstones && i%2 == 0 {
+				v = nil
+			}
 			inner := rel
 			if kind == 2 {
 				inner = first + rel // magic 0: inner offsets are absolute
@@ -352,6 +369,7 @@ func VH_C02_FetchCompressed(version, kind, nrec int) {
 		g := got[i]
 		vhAssert(g.Offset == want[i].offset, "compressed-absolute-offsets-in-order")
 		vhAssert(vhAll(vhBytesEq(g.Key, want[i].key), vhBytesEq(g.Value, want[i].value)), "compressed-key-and-value")
+		vhAssert(vhAll((g.Key == nil) == (want[i].key == nil), (g.Value == nil) == (want[i].value == nil)), "compressed-null-key-and-value-stay-null")
 		if kind != 2 {
 			vhAssert(g.Time.Unix()*1000+int64(g.Time.Nanosecond())/1000000 == want[i].ts, "compressed-timestamp")
 		}
